@@ -356,21 +356,27 @@ func r043(c *Ctx, r *R) {
 	if sp == nil {
 		return
 	}
-	for _, lf := range returnLeaves(sp, 0) {
+	// the leaves of setupPin's result, looking through helpers that were
+	// extracted from it (a single-caller helper is a piece of setupPin)
+	spLeaves := returnLeavesDeep(sp, 0)
+	for _, lf := range spLeaves {
 		if isNilConst(lf.Val) {
 			r.Check(lf.GuardedBy(func(g Guard) bool { return gCallErrNil(g, ModPath+".Cluster).setupReplicationFactor") }), "setupPin:nil-after-factors", lf.Pos,
 				"setupPin returns nil only after the replication factors were validated", "setupPin can return nil without validating the replication factors")
 		}
 	}
 	hasErrReturnUnder := func(pred func(g Guard) bool) bool {
-		for _, ret := range returnsOf(sp) {
-			if isNilConst(retResult(ret, 0)) {
+		for _, lf := range spLeaves {
+			if isNilConst(lf.Val) {
 				continue
 			}
-			if call, _ := originCall(retResult(ret, 0)); call != nil && nameMatches(callName(call.Common()), "checkPinType", "setupReplicationFactor") {
+			if call, _ := originCallLocal(lf.Val); call != nil && nameMatches(callName(call.Common()), "checkPinType", "setupReplicationFactor") {
 				continue
 			}
-			if guardedBy(ret.Block(), pred) {
+			if lf.ViaCall("checkPinType", "setupReplicationFactor") {
+				continue
+			}
+			if lf.GuardedBy(pred) {
 				return true
 			}
 		}
@@ -406,8 +412,11 @@ func r043(c *Ctx, r *R) {
 	}
 	// checkPinType is the last word for existing pins
 	okCPT := false
-	for _, lf := range returnLeaves(sp, 0) {
-		if call, _ := originCall(lf.Val); call != nil && nameMatches(callName(call.Common()), ModPath+".checkPinType") {
+	for _, lf := range spLeaves {
+		if call, _ := originCallLocal(lf.Val); call != nil && nameMatches(callName(call.Common()), ModPath+".checkPinType") {
+			okCPT = true
+		}
+		if lf.ViaCall(ModPath + ".checkPinType") {
 			okCPT = true
 		}
 	}
